@@ -6,6 +6,7 @@
 package vrt
 
 import (
+	"context"
 	"fmt"
 	"hash/fnv"
 	"reflect"
@@ -50,6 +51,9 @@ type thread struct {
 	handOK     bool
 	handIndex  int
 	recvIdxFor func(*chanState) int
+	handChan   *chanState
+	// DPOR: object names the pending operation touches (valid while the thread waits at a point)
+	pend []uint64
 }
 
 // PointRec records one choice point of an execution.
@@ -78,6 +82,12 @@ type Execution struct {
 	Preempted int
 	// number of object names known to be shared when the execution started (local-object elision)
 	SharedAtStart int
+	// DPOR record (RunOpts.DPOR != nil): one DPoint per entry of Points (nil at environment points), the
+	// events in execution order, the pending operations of unfinished threads at the end
+	DP           []*DPoint
+	Events       []*DEvent
+	PendingAtEnd []*DEvent
+	SleepBlocked bool // every enabled thread was in the sleep set: the continuation is covered elsewhere
 }
 
 func (x *Execution) Choices() []int {
@@ -103,6 +113,7 @@ type sched struct {
 	wg       sync.WaitGroup
 	envSeq   int
 	objSum   uint64
+	dp       *dporState
 }
 
 // S is the scheduler of the execution in progress (exactly one at a time per process).
@@ -114,6 +125,8 @@ type RunOpts struct {
 	// Prune is consulted at every thread-choice point beyond the prefix with the state key; returning
 	// true cuts the execution there (the explorer has already expanded that state).
 	Prune func(key uint64, point int, pre int) bool
+	// DPOR switches on event/access recording and sleep sets (see dpor.go)
+	DPOR *DPORIn
 }
 
 func mix(h uint64, vs ...uint64) uint64 {
@@ -137,6 +150,10 @@ func Run(prefix []int, o RunOpts, main func()) *Execution {
 	s := &sched{prefix: prefix, x: &Execution{SharedAtStart: len(sharedOrder)}, finished: make(chan struct{}), chans: map[uintptr]*chanState{}, objs: map[any]*object{}, verbose: o.Verbose, prune: o.Prune}
 	S = s
 	t := s.spawn(nil, main)
+	if o.DPOR != nil {
+		s.dp = &dporState{in: o.DPOR, sleep: map[uint64][]uint64{}}
+		s.dp.begin(-1, t)
+	}
 	s.cur = t
 	t.started = true
 	t.wake <- struct{}{}
@@ -152,6 +169,9 @@ func Run(prefix []int, o RunOpts, main func()) *Execution {
 		}
 	}
 	s.wg.Wait()
+	if s.dp != nil {
+		s.x.Events = s.dp.events
+	}
 	s.x.Threads = len(s.threads)
 	s.x.Preempted = s.pre
 	S = nil
@@ -210,6 +230,10 @@ func Go(fn func()) {
 	t := s.cur
 	nt := s.spawn(t, fn)
 	t.observe("go", nil, nt.name)
+	if s.dp != nil {
+		s.dp.cur.Spawn = append(s.dp.cur.Spawn, nt.name)
+		t.pend = nil
+	}
 	point("go", nil, false)
 }
 
@@ -227,6 +251,10 @@ func GoDaemon(fn func()) {
 	nt := s.spawn(t, fn)
 	nt.daemon = true
 	t.observe("godaemon", nil, nt.name)
+	if s.dp != nil {
+		s.dp.cur.Spawn = append(s.dp.cur.Spawn, nt.name)
+		t.pend = nil
+	}
 	point("go", nil, false)
 }
 
@@ -247,8 +275,14 @@ func (s *sched) obj(key any) *object {
 	o, ok := s.objs[key]
 	if !ok {
 		t := s.cur
-		t.names++
-		o = &object{name: mix(t.name, 0xc2b2ae3d27d4eb4f, uint64(t.names))}
+		if key == any(stampObj) {
+			// the global stamp counter is first touched by whichever thread stamps first: a fixed name keeps
+			// object names (and with them histories and state keys) independent of the interleaving
+			o = &object{name: hstr("vrt/stamp")}
+		} else {
+			t.names++
+			o = &object{name: mix(t.name, 0xc2b2ae3d27d4eb4f, uint64(t.names))}
+		}
 		s.objs[key] = o
 		s.objSum ^= mix(o.name, o.state)
 	}
@@ -284,10 +318,36 @@ func (s *sched) stateKey() uint64 {
 
 var _ = sort.Ints
 
+// finalKey identifies the state at the end of an execution independently of which thread ran last:
+// per-thread histories and object states only (equal for all interleavings of one Mazurkiewicz trace).
+func (s *sched) finalKey() uint64 {
+	var ts uint64
+	for _, t := range s.threads {
+		d := uint64(0)
+		if t.done {
+			d = 1
+		}
+		ts ^= mix(t.name, t.hist, d)
+	}
+	return mix(14695981039346656037, ts, s.objSum)
+}
+
 func (s *sched) finish() {
 	select {
 	case <-s.finished:
 	default:
+		s.x.FinalKey = s.finalKey()
+		if s.dp != nil {
+			for _, th := range s.threads {
+				if !th.done && len(th.pend) > 0 {
+					ev := &DEvent{Point: -1, Thread: th.name}
+					for _, o := range th.pend {
+						ev.Acc = append(ev.Acc, Access{Obj: o, Write: true})
+					}
+					s.x.PendingAtEnd = append(s.x.PendingAtEnd, ev)
+				}
+			}
+		}
 		close(s.finished)
 	}
 }
@@ -354,10 +414,28 @@ func (s *sched) yield(t *thread) {
 	if len(en) > 1 || s.prune != nil {
 		key = s.stateKey()
 	}
+	var dpt *DPoint
+	if s.dp != nil {
+		dpt = s.dp.atPoint(s, i, en, inPrefix)
+	}
 	if inPrefix {
 		ch = s.prefix[i]
 		if ch >= len(en) {
 			panic(fmt.Sprintf("vrt: replay divergence at point %d: choice %d of %d enabled", i, ch, len(en)))
+		}
+	} else if s.dp != nil {
+		ch = -1
+		for k, th := range en {
+			if _, asleep := s.dp.sleep[th.name]; !asleep {
+				ch = k
+				break
+			}
+		}
+		if ch < 0 {
+			s.x.SleepBlocked = true
+			s.finish()
+			s.park(t)
+			return
 		}
 	} else if s.prune != nil && len(en) > 1 && s.prune(key, i, s.pre) {
 		s.x.Aborted = true
@@ -369,6 +447,11 @@ func (s *sched) yield(t *thread) {
 	defEn := curEn && !spinning
 	s.x.Points = append(s.x.Points, PointRec{Choice: ch, N: len(en), CurEnabled: defEn, Pre: s.pre, Key: key})
 	next := en[ch]
+	if s.dp != nil {
+		s.x.DP = append(s.x.DP, dpt)
+		delete(s.dp.sleep, next.name)
+		s.dp.begin(i, next)
+	}
 	if next != cur && defEn {
 		s.pre++
 	}
@@ -413,10 +496,16 @@ func Point(what string) {
 	if !Active() {
 		return
 	}
+	if S.dp != nil {
+		S.cur.pend = append(S.cur.pend[:0], foreignName)
+	}
 	point(what, nil, false)
 	t := S.cur
 	t.ro = 0
 	t.observe(what, nil, 0)
+	if S.dp != nil {
+		S.dp.acc(foreignName, true)
+	}
 }
 
 // Op runs one modelled operation of an instrumented primitive: schedule, then apply effect.
@@ -462,6 +551,9 @@ func Op(what string, key any, enabled func() bool, effect func(o *object, ev uin
 			return
 		}
 	}
+	if s.dp != nil {
+		s.cur.pend = append(s.cur.pend[:0], o.name)
+	}
 	point(what, enabled, false)
 	t := s.cur
 	before := mix(o.name, o.state)
@@ -473,6 +565,9 @@ func Op(what string, key any, enabled func() bool, effect func(o *object, ev uin
 		t.ro = 0
 	}
 	t.observe(what, o, seen)
+	if s.dp != nil {
+		s.dp.acc(o.name, !ro)
+	}
 }
 
 var freeMu sync.Mutex
@@ -558,6 +653,9 @@ func Choose(n int) int {
 		}
 	}
 	s.x.Points = append(s.x.Points, PointRec{Choice: ch, N: n, Pre: s.pre, Env: true})
+	if s.dp != nil {
+		s.x.DP = append(s.x.DP, nil)
+	}
 	s.cur.observe("choose", nil, uint64(ch))
 	return ch
 }
@@ -798,6 +896,21 @@ func Select(hasDefault bool, cases ...Case) (int, any, bool) {
 		}
 	}
 	t.recvIdxFor = func(st *chanState) int { return recvIdx[st] }
+	if s.dp != nil {
+		// parking on an unbuffered channel enables the partner's operation: a write of the channel by
+		// the event that ends here. The pending select touches every case channel.
+		for _, st := range regs {
+			s.dp.acc(st.obj.name, true)
+		}
+		t.pend = t.pend[:0]
+		for _, c := range cases {
+			if st := s.cs(c.Ch); st != nil {
+				t.pend = append(t.pend, st.obj.name)
+			} else {
+				t.pend = append(t.pend, foreignName)
+			}
+		}
+	}
 	point(what, en, false)
 	t.recvIdxFor = nil
 	unregister()
@@ -808,12 +921,27 @@ func Select(hasDefault bool, cases ...Case) (int, any, bool) {
 		idx, v, ok := t.handIndex, t.handVal, t.handOK
 		t.handVal = nil
 		t.observe(what+"/handed", nil, uint64(idx))
+		if s.dp != nil && idx >= 0 && idx < len(cases) {
+			if st := s.cs(cases[idx].Ch); st != nil {
+				s.dp.acc(st.obj.name, true)
+			}
+		}
 		return idx, v, ok
 	}
 	var ready []int
 	for i, c := range cases {
 		if s.caseReady(c, t) {
 			ready = append(ready, i)
+		}
+	}
+	if s.dp != nil {
+		// the outcome of a select depends on the state of every case channel
+		for _, c := range cases {
+			if st := s.cs(c.Ch); st != nil {
+				s.dp.acc(st.obj.name, false)
+			} else {
+				s.dp.acc(foreignName, false)
+			}
 		}
 	}
 	if len(ready) == 0 {
@@ -832,6 +960,9 @@ func Select(hasDefault bool, cases ...Case) (int, any, bool) {
 	c := cases[i]
 	st := s.cs(c.Ch)
 	ev := t.eventID()
+	if s.dp != nil && st != nil {
+		s.dp.acc(st.obj.name, true)
+	}
 	if st == nil { // foreign closed channel
 		t.ro++
 		t.observe(what+"/foreign", nil, uint64(i))
@@ -993,6 +1124,9 @@ func Close[T any](c chan<- T) {
 	if st == nil {
 		panic("vrt: close of a channel that is not modelled")
 	}
+	if s.dp != nil {
+		s.cur.pend = append(s.cur.pend[:0], st.obj.name)
+	}
 	point("close", nil, false)
 	t := s.cur
 	if st.closed {
@@ -1002,6 +1136,9 @@ func Close[T any](c chan<- T) {
 	st.rehash()
 	t.ro = 0
 	t.observe("close", st.obj, 0)
+	if s.dp != nil {
+		s.dp.acc(st.obj.name, true)
+	}
 }
 
 func Len[T any](c chan T) int {
@@ -1015,3 +1152,55 @@ func Len[T any](c chan T) int {
 }
 
 func Cap[T any](c chan T) int { return cap(c) }
+
+// ---------------------------------------------------------------------------
+// context reads and cancellations (tools/vgen routes ctx.Err(), context.Cause and calls of CancelFunc
+// values here). They are not scheduling points: a cancellation stays attached to the event that makes
+// it (a probe of another thread commutes with that event's visible operation). The result of a read is
+// folded into the reading thread's history (local state => state key), and for partial-order reduction
+// reads and cancellations are accesses of one global "foreign" object.
+
+var foreignName = hstr("vrt/foreign-cancellation-state")
+
+func CtxErr(ctx context.Context) error {
+	err := ctx.Err()
+	if s := S; s != nil && !s.aborted {
+		v := uint64(0)
+		if err != nil {
+			v = 1 + hstr(err.Error())
+		}
+		s.cur.observe("ctx.Err", nil, v)
+		if s.dp != nil {
+			s.dp.acc(foreignName, false)
+		}
+	}
+	return err
+}
+
+func CtxCause(ctx context.Context) error {
+	err := context.Cause(ctx)
+	if s := S; s != nil && !s.aborted {
+		v := uint64(0)
+		if err != nil {
+			v = 1 + hstr(err.Error())
+		}
+		s.cur.observe("ctx.Cause", nil, v)
+		if s.dp != nil {
+			s.dp.acc(foreignName, false)
+		}
+	}
+	return err
+}
+
+func noteCancel() {
+	if s := S; s != nil && !s.aborted {
+		s.cur.observe("ctx.cancel", nil, 0)
+		if s.dp != nil {
+			s.dp.acc(foreignName, true)
+		}
+	}
+}
+
+func CancelCall(f context.CancelFunc) { noteCancel(); f() }
+
+func CancelCauseCall(f context.CancelCauseFunc, err error) { noteCancel(); f(err) }
